@@ -69,6 +69,8 @@ instance instScalarReal : Scalar ℝ where
   toI64 := realToI64
   toUsize := realToUsize
   ofInt := fun i => (i : ℝ)
+  toF32 := fun x => x
+  isFinite := fun _ => true
   pi := Real.pi
 
 end
